@@ -191,6 +191,48 @@ def run(facts, cg):
     if len([1 for (b, bi, t) in cg.calls_to(SLEEP) if b.crate == 'bitar']) < 2:
         finding('R-RETRY', '-', 'floor', 'expected 2 retry re-arm sites (cannot decide)')
 
+    # every range request the HTTP reader builds is armed with the reader's retry budget and delay before it is used: a request
+    # that is built through a new helper and loses its `.retry(..)` on the way still works on a fault-free connection
+    n_arm = 0
+    for b in facts.bodies.values():
+        if not b.id.startswith('bitar::archive_reader::http_reader::') or b.generated:
+            continue
+        for bi, t in b.calls():
+            if 'q' not in t['callee'] or not callee_q(t).endswith('HttpRangeRequest::new') or t['dest']['p']:
+                continue
+            n_arm += 1
+            # consumers of the value: follow moves / `?` / Option wrapping to the first call that is not a plain conveyor
+            armed = None
+            seen, work = set(), [t['dest']['l']]
+            while work and armed is None:
+                l = work.pop()
+                if l in seen:
+                    continue
+                seen.add(l)
+                for ubi in b.live:
+                    for st in b.blocks[ubi]['stmts']:
+                        if st['k'] == 'assign' and any(o.get('k') in ('copy', 'move') and o['pl']['l'] == l for o in _rv_ops(st['rv'])):
+                            if st['pl']['p']:
+                                armed = armed if armed is not None else False      # stored / used without having been armed
+                            else:
+                                work.append(st['pl']['l'])
+                    ut = b.blocks[ubi]['term']
+                    if ut['k'] == 'call' and any(a.get('k') in ('copy', 'move') and a['pl']['l'] == l for a in ut['args']):
+                        uq = callee_q(ut) if 'q' in ut['callee'] else ''
+                        if uq.endswith('HttpRangeRequest::retry'):
+                            args = [simplify(T.resolve_env(simplify(T.of_operand(b, a)))) for a in ut['args'][1:]]
+                            armed = all(any(n[0] == 'field' for n in walk(a)) for a in args) and len(args) == 2
+                        elif uq.split('::')[-1] in ('branch', 'from_residual', 'into', 'from', 'ok_or', 'ok_or_else', 'map_err') and not ut['dest']['p']:
+                            work.append(ut['dest']['l'])
+                        elif armed is None:
+                            armed = False
+            instances.append({'rule': 'R-RETRY(armed)', 'function': b.q, 'request_built_at': t['loc'], 'armed_with_reader_budget': bool(armed)})
+            if not armed:
+                finding('R-RETRY', b.q, 'not-armed', 'the range request built at %s is used without `.retry(<reader\'s retry count>, <reader\'s retry delay>)`: a transfer '
+                        'fault on it fails the clone although retries were asked for' % t['loc'])
+    if n_arm < 2:
+        finding('R-RETRY', '-', 'floor-armed', 'expected the two constructions of a range request in the HTTP reader, found %d (cannot decide)' % n_arm)
+
     # ---------------------------------------------------------------- R-SEEK-EACH (local reader)
     # The chunk reader of module io_reader is a state machine over an enum-typed field.  Its states are told apart by what
     # their arm of the dispatch does (starts a seek / waits for it / reads), not by their names.
@@ -402,6 +444,17 @@ def _reachable_without_edge(b, edge, target):
             seen.add(s_)
             w.append(s_)
     return target in seen
+
+
+def _rv_ops(rv):
+    out = []
+    for k in ('op', 'a', 'b'):
+        if isinstance(rv.get(k), dict):
+            out.append(rv[k])
+    out += rv.get('ops') or []
+    if isinstance(rv.get('pl'), dict):
+        out.append({'k': 'copy', 'pl': rv['pl']})
+    return out
 
 
 def _calls_like(t, part):
